@@ -42,10 +42,15 @@ def _mv_list(txt, lists):
     lists[m.group(1)] = tuple(int(it[1:]) for it in items)
 
 
-def pretty_steps(text):
+def pretty_steps(text, raw=False):
+    """steps of a pretty file; with raw=True also the header text of each step (what the interpreter wrote
+    before the newline that ends the step) and the step as a call of the model (token list for EMIT)"""
     lines = text.split('\n')
-    steps = []
+    steps, raws, calls = [], [], []
     i = 0
+
+    def cps(sx):
+        return [str(len(sx))] + [str(ord(c)) for c in sx]
     while i < len(lines):
         line = lines[i]
         i += 1
@@ -56,31 +61,48 @@ def pretty_steps(text):
             if not m:
                 raise FormatError(f'bad line {line!r}')
             lists = {}
+            hdr = [line]
             if m.group(2):
                 _mv_list(m.group(2), lists)
                 while i < len(lines) and re.match(r'(eFresh|sFresh|pos|neg|appctx), len=', lines[i]):
                     _mv_list(lines[i], lists)
+                    hdr.append(lines[i])
                     i += 1
-            steps.append(('MetaVar', int(m.group(1)), tuple(lists.get(k, ()) for k in LISTS)))
+            ls = tuple(lists.get(k, ()) for k in LISTS)
+            steps.append(('MetaVar', int(m.group(1)), ls))
+            raws.append('\n'.join(hdr) + ('\n' if m.group(2) else ''))
+            calls.append(['MV', m.group(1)] + [t for l in ls for t in [str(len(l))] + [str(x) for x in l]])
             continue
+        raws.append(line)
         head, _, arg = line.partition(' ')
         if head in ('EVar', 'SVar', 'Exists', 'Mu', 'Generalization'):
             steps.append((head, int(arg)))
+            calls.append([{'EVar': 'EV', 'SVar': 'SV', 'Exists': 'EX', 'Mu': 'MU', 'Generalization': 'GE'}[head], arg])
         elif head == 'Symbol':
             steps.append(('Symbol', arg))
+            calls.append(['SY'] + cps(arg))
         elif head in ('ESubst', 'SSubst'):
             m = re.fullmatch(r'id=(\d+)', arg)
             if not m:
                 raise FormatError(f'bad line {line!r}')
             steps.append((head, int(m.group(1))))
+            calls.append([head[:2].upper(), m.group(1)])
         elif head == 'Instantiate':
-            steps.append(('Instantiate', tuple(int(x) for x in arg.split(', ')) if arg else ()))
+            keys = tuple(int(x) for x in arg.split(', ')) if arg else ()
+            steps.append(('Instantiate', keys))
+            calls.append(['IN', str(len(keys))] + [str(k) for k in keys])
         elif head == 'Load':
-            steps.append(('Load', int(arg.rsplit('=', 1)[1])))
+            name, idx = arg.rsplit('=', 1)
+            steps.append(('Load', int(idx)))
+            calls.append(['LO'] + cps(name) + [idx])
         elif head in ('Implies', 'App', 'Prop1', 'Prop2', 'Prop3', 'ModusPonens', 'Quantifier', 'Pop', 'Save', 'Publish') and not arg:
             steps.append((head,))
+            calls.append([{'Implies': 'IM', 'App': 'AP', 'Prop1': 'P1', 'Prop2': 'P2', 'Prop3': 'P3', 'ModusPonens': 'MP',
+                           'Quantifier': 'QU', 'Pop': 'PO', 'Save': 'SA', 'Publish': 'PU'}[head]])
         else:
             raise FormatError(f'unknown pretty line {line!r}')
+    if raw:
+        return steps, raws, calls
     return steps
 
 
@@ -323,6 +345,7 @@ def run(tier, seed):
     opcodes = outs[0]['res'] if outs[0].get('ok') else {}
     total_steps = 0
     rejected = 0
+    emit_jobs = []
     for line, o in zip(lines[1:], outs[1:]):
         if not o.get('ok'):
             rejected += 1
@@ -332,11 +355,39 @@ def run(tier, seed):
             continue
         problems, nsteps = compare_files(o['res'], opcodes)
         total_steps += nsteps
+        for mode in ('plain', 'opt'):      # model of the two interpreters (Py/Serial.v) on the same call sequence
+            try:
+                calls, raws, blob = [], [], b''
+                for ph in ('gamma', 'claim', 'proof'):
+                    _, rw, cl = pretty_steps(o['res'][mode][ph]['pretty'], raw=True)
+                    calls += cl
+                    raws += rw
+                    blob += bytes.fromhex(o['res'][mode][ph]['bin'])
+                emit_jobs.append((line, mode, calls, raws, blob))
+            except FormatError:
+                pass
         R.case(line, True, 'module:' + ('shipped' if line.startswith('SHIPPED') else 'generated'))
         if problems:
             where, what = problems[0]
             R.violation('C19:lines-vs-opcodes:' + what.split(' ')[0],
                         f'{line[:60]}: {where}: {what}', dict(module=line, where=where, what=what, all=problems[:10]))
+    ereqs = [('EMIT', ' '.join([str(len(calls))] + [t for c in calls for t in c])) for _, _, calls, _, _ in emit_jobs]
+    eans = sides.model(ereqs, cfg)
+    emit_bad = 0
+    for (line, mode, calls, raws, blob), a in zip(emit_jobs, eans):
+        R.case(('emit', line, mode), True, 'serial-model')
+        ok = False
+        if a.startswith('B 1 ') and ' | ' in a:
+            bs, _, st = a[4:].partition(' | ')
+            mbytes = bytes(int(x) for x in bs.split()) if bs.strip() else b''
+            msteps = [''.join(chr(int(x)) for x in part.split()) for part in st.split(' ; ')] if calls else []
+            ok = (mbytes == blob and msteps == raws)
+        elif a.startswith('B 1') and not calls:
+            ok = (blob == b'')
+        if not ok:
+            emit_bad += 1
+            mismatches.append(dict(op='EMIT', args=line[:200] + ' ' + mode, model=a[:300], impl=blob.hex()[:300]))
+    R.notes.append({'serial_model_jobs': len(emit_jobs), 'serial_model_mismatches': emit_bad})
     R.notes.append({'modules': len(lines) - 1, 'modules_not_serialisable': rejected, 'instructions_compared': total_steps,
                     'pretty_tie_mismatches': len(mismatches), 'distinguish_pairs': len(dmeta)})
 
@@ -344,8 +395,8 @@ def run(tier, seed):
         R.violation('proof-broken', 'Coq proof stage failed (Gen/Notations.v regenerated from the tree no longer satisfies Props/C19.v)',
                     {'no_failing_input_found': True, 'theorem_or_correspondence': f'Props/{CID}.v', 'translator': msgT, 'log': P['log']})
     if mismatches and not R.violations:
-        R.violation('correspondence-broken', 'model (Py/Pretty.v) and Pattern.pretty disagree',
-                    {'no_failing_input_found': True, 'theorem_or_correspondence': 'correspondence mlref_py pretty vs Pattern.pretty',
+        R.violation('correspondence-broken', 'model (Py/Pretty.v, Py/Serial.v) and the implementation disagree',
+                    {'no_failing_input_found': True, 'theorem_or_correspondence': 'correspondence mlref_py pretty/emits/pretty_step vs Pattern.pretty, SerializingInterpreter, PrettyPrintingInterpreter',
                      'first_mismatches': mismatches[:5]})
     R.coverage['rule'] = ('pretty(): every shipped notation (real objects) + families + 12 generated notations at random argument '
                           'tuples and random patterns, random notation subsets registered, simplify on/off; distinguish: per notation '
